@@ -96,7 +96,7 @@ def estimator_part(ctx, fails):
         df, meta = datagen.mixed_frame(ctx.rng, n=ctx.rng.randint(50, 90), outcome=otype)
         rs = np.random.RandomState(ctx.rng.randrange(2 ** 31))
         df['w'] = rs.randint(1, 6, size=len(df))
-        WL[0] = ['w', 0, 'w', ''][i % 4]            # an integer-0 label is what pd.concat([df, pd.Series(w)], axis=1) produces
+        WL[0] = ['w', '_w_', 0, ''][i % 4]          # an integer-0 label is what pd.concat([df, pd.Series(w)], axis=1) produces; '_w_' is a label like any other
         if WL[0] != 'w':
             df = df.rename(columns={'w': WL[0]})
         ctx.count('weights column label:%r' % (WL[0],))
